@@ -44,6 +44,13 @@ type ReqPlan struct {
 	Chunks  []int                   `json:"chunks,omitempty"`
 	// UnknownLength: the client streams the body without declaring its length (chunked transfer coding)
 	UnknownLength bool `json:"unknown_length,omitempty"`
+	// Quirks: legal things a client may do that change nothing about what the request carries:
+	// "ctype-charset" (a charset parameter on the declared media type), "extra-query" / "extra-header"
+	// (an unrelated query key / header next to the declared ones), "dup-query-same" (the first scalar query
+	// key twice, same value) - and one whose effect C05 does not decide: "no-ctype" (body without media type)
+	Quirks []string `json:"quirks,omitempty"`
+	// DupQuery: "key=value" (escaped) of the first scalar query parameter the request carries
+	DupQuery string `json:"dup_query,omitempty"`
 	Auth    map[string]AuthDecision `json:"auth,omitempty"`
 	AuthDefault AuthDecision        `json:"auth_default"`
 	Ctl     CtlScript               `json:"ctl"`
@@ -138,6 +145,9 @@ func typeClass(t projgen.TypeRef) string {
 	}
 	if t.Slice {
 		s = "[]" + s
+	}
+	if t.Map {
+		s = "map[]" + s
 	}
 	if t.Ptr {
 		s = "*" + s
@@ -417,6 +427,9 @@ func (pl *planner) buildForced(ri int, class string, modes map[string]string, ad
 					qOrder = append(qOrder, wire)
 				}
 				q.Add(wire, v.Raw)
+				if plan.DupQuery == "" && !prm.Type.Slice && mode == "send" && len(vals) == 1 {
+					plan.DupQuery = url.QueryEscape(wire) + "=" + url.QueryEscape(v.Raw)
+				}
 			case "header":
 				plan.Headers = append(plan.Headers, [2]string{wire, v.Raw})
 			case "form":
@@ -467,6 +480,9 @@ func (pl *planner) buildForced(ri int, class string, modes map[string]string, ad
 					qOrder = append(qOrder, wire)
 				}
 				q.Add(wire, v.Raw)
+				if plan.DupQuery == "" && !prm.Type.Slice && mode == "send" && len(vals) == 1 {
+					plan.DupQuery = url.QueryEscape(wire) + "=" + url.QueryEscape(v.Raw)
+				}
 			case "header":
 				plan.Headers = append(plan.Headers, [2]string{wire, v.Raw})
 			case "form":
